@@ -191,6 +191,36 @@ pub fn run(a: &Args) {
             }
         }
     }
+    // a crash right after the writer was opened BY PATH over an older, longer, valid shapefile (and after a few
+    // unflushed writes): nothing of the old file may be read as if it belonged to the new one
+    for wi in 0..6usize {
+        let i = wi % chunks;
+        let c = &concs[i];
+        let t = ALL_TYPES[(wi * 5 + seed as usize) % 13];
+        let syms = random_syms(&mut r, t, other_type(t, 0));
+        let (sa, sb) = (build(c, &syms.a), build(c, &syms.b));
+        let p = crate::cmd_codec::path_variant(&tmp.0, "old", wi);
+        let res = guarded(|| {
+            {
+                let mut w = ShapeWriter::from_path(&p).unwrap();
+                for _ in 0..4 {
+                    crate::with_inner!(&sb, v => w.write_shape(v).unwrap(), ());
+                }
+            }
+            let old_len = std::fs::metadata(&p).map(|m| m.len()).unwrap_or(0);
+            let mut w = ShapeWriter::from_path(&p).unwrap();
+            for _ in 0..wi % 3 {
+                crate::with_inner!(&sa, v => w.write_shape(v).unwrap(), ());
+            }
+            std::mem::forget(w);          // the process dies here: nothing buffered is flushed
+            old_len
+        });
+        let by_path = crate::cmd_codec::read_path_route(c, &p, t, true, false, 4, false);
+        let _ = std::fs::remove_file(&p);
+        let _ = std::fs::remove_file(p.with_extension("shx"));
+        traces[i].run(json!({"ev": "crash0", "t": t, "writes": wi % 3, "oldLen": res.clone().unwrap_or(0), "panic": res.is_err(), "res": by_path}));
+        cases += 1;
+    }
     let mut files = vec![];
     let mut lines = 0;
     for t in traces {
